@@ -582,6 +582,7 @@ pub enum Scan {
 }
 /// what the next cell of the record stream s is, `row` being the row of the last BrtRowHdr: written from the property text
 /// (cell kinds report a value, BrtRowHdr 0x0000 sets the row, BrtEndSheetData 0x0092 ends, any other kind is passed over whole)
+#[verifier::opaque]
 pub open spec fn scan(s: Seq<u8>, row: u32) -> Scan decreases s.len() {
     if !rec_ok(s) || rec_rest(s).len() >= s.len() { Scan::Truncated }   // (second disjunct never true: lemma_rec_total)
     else if is_cell_kind(rec_typ(s)) { Scan::Cell { row, typ: rec_typ(s), payload: rec_payload(s), rest: rec_rest(s) } }
@@ -591,6 +592,21 @@ pub open spec fn scan(s: Seq<u8>, row: u32) -> Scan decreases s.len() {
     }
     else if rec_typ(s) == 0x0092 { Scan::End }
     else { scan(rec_rest(s), row) }
+}
+
+/// one unfolding of `scan` (kept opaque elsewhere so that the solver does not unfold it on every stream term)
+proof fn lemma_scan_step(s: Seq<u8>, row: u32)
+    ensures scan(s, row) == (
+        if !rec_ok(s) || rec_rest(s).len() >= s.len() { Scan::Truncated }
+        else if is_cell_kind(rec_typ(s)) { Scan::Cell { row, typ: rec_typ(s), payload: rec_payload(s), rest: rec_rest(s) } }
+        else if rec_typ(s) == 0x0000 {
+            if rec_payload(s).len() < 4 || le32(rec_payload(s)) > ROW_MAX { Scan::Malformed }
+            else { scan(rec_rest(s), le32(rec_payload(s)) as u32) }
+        }
+        else if rec_typ(s) == 0x0092 { Scan::End }
+        else { scan(rec_rest(s), row) }),
+{
+    reveal(scan);
 }
 
 /// the payload is long enough for its kind ([MS-XLSB] 2.4.x: Cell structure 8 bytes, then the value), shared string index in range
@@ -607,35 +623,41 @@ pub open spec fn cell_rejected(typ: int, p: Seq<u8>) -> bool {
     ((typ == 3 || typ == 0xB) && berr(p[8]) is None)
     || ((typ == 6 || typ == 8) && p.len() < 12 + 2 * le32(p.subrange(8, 12)))
 }
-/// v is the value stored in the cell record (typ, p)
-pub open spec fn cell_val_ok(typ: int, p: Seq<u8>, fmts: Seq<CellFormat>, strs: Seq<String>, is_1904: bool, v: DataRef) -> bool {
+// ---- per kind: v is the value stored in the cell record with payload p
+pub open spec fn val_error(p: Seq<u8>, v: DataRef) -> bool { berr(p[8]) is Some && v == DataRef::Error(berr(p[8])->Some_0) }
+pub open spec fn val_bool(p: Seq<u8>, v: DataRef) -> bool { v == DataRef::Bool(p[8] != 0) }
+pub open spec fn val_real(p: Seq<u8>, fmts: Seq<CellFormat>, is_1904: bool, v: DataRef) -> bool {
+    v == wrap_f64(f64_of_bits(le64(p.subrange(8, 16))), cell_format_spec(fmts, p), is_1904)
+}
+pub open spec fn val_string(p: Seq<u8>, v: DataRef) -> bool {
+    v is String && v->String_0@ == dec16(p.subrange(12, 12 + 2 * le32(p.subrange(8, 12))))
+}
+pub open spec fn val_shared_string(p: Seq<u8>, strs: Seq<String>, v: DataRef) -> bool {
+    v is SharedString && v->SharedString_0@ == strs[le32(p.subrange(8, 12))]@
+}
+pub open spec fn val_rk(p: Seq<u8>, fmts: Seq<CellFormat>, is_1904: bool, v: DataRef) -> bool {
     let fmt = cell_format_spec(fmts, p);
-    if typ == 3 || typ == 0xB { berr(p[8]) is Some && v == DataRef::Error(berr(p[8])->Some_0) }
-    else if typ == 4 || typ == 0xA { v == DataRef::Bool(p[8] != 0) }
-    else if typ == 5 || typ == 9 { v == wrap_f64(f64_of_bits(le64(p.subrange(8, 16))), fmt, is_1904) }
-    else if typ == 6 || typ == 8 { v is String && v->String_0@ == dec16(p.subrange(12, 12 + 2 * le32(p.subrange(8, 12)))) }
-    else if typ == 7 { v is SharedString && v->SharedString_0@ == strs[le32(p.subrange(8, 12))]@ }
-    else if typ == 2 {
-        let raw = le32(p.subrange(8, 12));
-        if rk_is_int(raw) {
-            if rk_x100(raw) { exists|x: f64| v == wrap_f64(x, fmt, is_1904) }   // num/100: int->float conversion is uninterpreted in Verus
-            else { v == DataRef::Int(rk_int(raw) as i64) }
-        } else {
-            if rk_x100(raw) { v == wrap_f64(fdiv(f64_of_bits(rk_float_bits(raw)), 100.0f64), fmt, is_1904) }
-            else { v == wrap_f64(f64_of_bits(rk_float_bits(raw)), fmt, is_1904) }
-        }
+    let raw = le32(p.subrange(8, 12));
+    if rk_is_int(raw) {
+        if rk_x100(raw) { exists|x: f64| v == wrap_f64(x, fmt, is_1904) }   // num/100: the int->float conversion is uninterpreted in Verus
+        else { v == DataRef::Int(rk_int(raw) as i64) }
+    } else {
+        if rk_x100(raw) { v == wrap_f64(fdiv(f64_of_bits(rk_float_bits(raw)), 100.0f64), fmt, is_1904) }
+        else { v == wrap_f64(f64_of_bits(rk_float_bits(raw)), fmt, is_1904) }
     }
+}
+/// v is the value stored in the cell record (typ, p); a formula kind stores its cached value like the constant kind
+pub open spec fn cell_val_ok(typ: int, p: Seq<u8>, fmts: Seq<CellFormat>, strs: Seq<String>, is_1904: bool, v: DataRef) -> bool {
+    if typ == 3 || typ == 0xB { val_error(p, v) }
+    else if typ == 4 || typ == 0xA { val_bool(p, v) }
+    else if typ == 5 || typ == 9 { val_real(p, fmts, is_1904, v) }
+    else if typ == 6 || typ == 8 { val_string(p, v) }
+    else if typ == 7 { val_shared_string(p, strs, v) }
+    else if typ == 2 { val_rk(p, fmts, is_1904, v) }
     else { false }
 }
 /// a cell record of a kind the reader reports (BrtFmlaError is handled by its own clause), well-formed
 pub open spec fn good_cell(sc: Scan, nstr: int) -> bool { sc is Cell && sc->typ != 0xB && cell_wf(sc->typ, sc->payload, nstr) }
-// (aliases of cell_val_ok: one name per match arm, so that a failing arm is reported under its own name)
-pub open spec fn val_error_ok(typ: int, p: Seq<u8>, fmts: Seq<CellFormat>, strs: Seq<String>, is_1904: bool, v: DataRef) -> bool { cell_val_ok(typ, p, fmts, strs, is_1904, v) }
-pub open spec fn val_bool_ok(typ: int, p: Seq<u8>, fmts: Seq<CellFormat>, strs: Seq<String>, is_1904: bool, v: DataRef) -> bool { cell_val_ok(typ, p, fmts, strs, is_1904, v) }
-pub open spec fn val_real_ok(typ: int, p: Seq<u8>, fmts: Seq<CellFormat>, strs: Seq<String>, is_1904: bool, v: DataRef) -> bool { cell_val_ok(typ, p, fmts, strs, is_1904, v) }
-pub open spec fn val_string_ok(typ: int, p: Seq<u8>, fmts: Seq<CellFormat>, strs: Seq<String>, is_1904: bool, v: DataRef) -> bool { cell_val_ok(typ, p, fmts, strs, is_1904, v) }
-pub open spec fn val_shared_string_ok(typ: int, p: Seq<u8>, fmts: Seq<CellFormat>, strs: Seq<String>, is_1904: bool, v: DataRef) -> bool { cell_val_ok(typ, p, fmts, strs, is_1904, v) }
-pub open spec fn val_rk_ok(typ: int, p: Seq<u8>, fmts: Seq<CellFormat>, strs: Seq<String>, is_1904: bool, v: DataRef) -> bool { cell_val_ok(typ, p, fmts, strs, is_1904, v) }
 pub open spec fn is_date_fmt(f: Option<CellFormat>) -> bool { f == Some(CellFormat::DateTime) || f == Some(CellFormat::TimeDelta) }
 
 //@@ impl src/xlsb/cells_reader.rs XlsbCellsReader
@@ -669,10 +691,15 @@ pub open spec fn is_date_fmt(f: Option<CellFormat>) -> bool { f == Some(CellForm
             sc is Cell && sc->typ == 0xB && cell_wf(sc->typ, sc->payload, old(self).strs().len() as int) && !cell_rejected(sc->typ, sc->payload)
             ==> r is Ok && r->Ok_0 is Some && r->Ok_0->Some_0.p() == (sc->row, le32(sc->payload) as u32)
                 && cell_val_ok(sc->typ, sc->payload, old(self).fmts(), old(self).strs(), old(self).f1904(), r->Ok_0->Some_0.v()) }),
-        // C10 "DateTime iff the style is a date/time format", for the numeric kinds
-        //# C10.num_datetime_iff_date_format
+        // C10 "DateTime iff the style is a date/time format": floating-point kinds (BrtCellReal, BrtFmlaNum, RK stored as double)
+        //# C10.real_datetime_iff_date_format
         ({ let sc = scan(old(self).rem(), old(self).cur_row());
-            sc is Cell && (sc->typ == 2 || sc->typ == 5 || sc->typ == 9) && cell_wf(sc->typ, sc->payload, old(self).strs().len() as int)
+            good_cell(sc, old(self).strs().len() as int) && (sc->typ == 5 || sc->typ == 9 || (sc->typ == 2 && !rk_is_int(le32(sc->payload.subrange(8, 12)))))
+            ==> r is Ok && r->Ok_0 is Some && (r->Ok_0->Some_0.v() is DateTime <==> is_date_fmt(cell_format_spec(old(self).fmts(), sc->payload))) }),
+        // ... and RK numbers stored as integer (xls wraps these through format_excel_i64)
+        //# C10.rk_int_datetime_iff_date_format
+        ({ let sc = scan(old(self).rem(), old(self).cur_row());
+            good_cell(sc, old(self).strs().len() as int) && sc->typ == 2 && rk_is_int(le32(sc->payload.subrange(8, 12)))
             ==> r is Ok && r->Ok_0 is Some && (r->Ok_0->Some_0.v() is DateTime <==> is_date_fmt(cell_format_spec(old(self).fmts(), sc->payload))) }),
 //@@ replace /let value = loop/ Verus has no break-with-value: `let x = loop { .. break v; };` desugared into `let out; loop { .. { out = v; break; } }; let x = out;`
 let verif_out; loop
@@ -685,10 +712,9 @@ let verif_out; loop
                 let nstr = self.strings@.len() as int;
                 let t = self.typ as int;
                 // the record the loop stopped at is the one `scan` designates
-                if good_cell(scan(s0, row0), nstr) {
-                    //# C03.cell_record_identified
-                    assert(scan(s0, row0) == (Scan::Cell { row: self.row, typ: t, payload: p, rest: self.iter.rem() }));
-                }
+                //# C03.cell_record_identified
+                assert(scan(s0, row0) is Malformed || (scan(s0, row0) is Cell && scan(s0, row0)->typ == 0xB)
+                    || scan(s0, row0) == (Scan::Cell { row: self.row, typ: t, payload: p, rest: self.iter.rem() }));
                 if is_cell_kind(t) && t != 0xB && cell_wf(t, p, nstr) {
                     //# C03.col_bytes_untouched
                     assert(self.buf@.len() >= 4 && self.buf@[0] == p[0] && self.buf@[1] == p[1] && self.buf@[2] == p[2] && self.buf@[3] == p[3]);
@@ -696,25 +722,25 @@ let verif_out; loop
                     assert(!cell_rejected(t, p));
                     if t == 3 {
                         //# C03.value_error
-                        assert(val_error_ok(t, p, self.formats@, self.strings@, self.is_1904, value));
+                        assert(val_error(p, value));
                     } else if t == 4 || t == 0xA {
                         //# C03.value_bool
-                        assert(val_bool_ok(t, p, self.formats@, self.strings@, self.is_1904, value));
+                        assert(val_bool(p, value));
                     } else if t == 5 || t == 9 {
                         //# C03.value_real
-                        assert(val_real_ok(t, p, self.formats@, self.strings@, self.is_1904, value));
+                        assert(val_real(p, self.formats@, self.is_1904, value));
                     } else if t == 6 || t == 8 {
                         axiom_cow_owned_str_all();
                         assert(p.subrange(8, p.len() as int).subrange(4, 4 + 2 * le32(p.subrange(8, 12))) =~= p.subrange(12, 12 + 2 * le32(p.subrange(8, 12))));
                         assert(p.subrange(8, p.len() as int)[0] == p[8] && p.subrange(8, p.len() as int)[1] == p[9] && p.subrange(8, p.len() as int)[2] == p[10] && p.subrange(8, p.len() as int)[3] == p[11]);
                         //# C03,C19.value_string
-                        assert(val_string_ok(t, p, self.formats@, self.strings@, self.is_1904, value));
+                        assert(val_string(p, value));
                     } else if t == 7 {
                         //# C03,C19.value_shared_string
-                        assert(val_shared_string_ok(t, p, self.formats@, self.strings@, self.is_1904, value));
+                        assert(val_shared_string(p, self.strings@, value));
                     } else if t == 2 {
                         //# C03.value_rk
-                        assert(val_rk_ok(t, p, self.formats@, self.strings@, self.is_1904, value));
+                        assert(val_rk(p, self.formats@, self.is_1904, value));
                     }
                 }
             }
@@ -734,8 +760,7 @@ let verif_out; loop
                     !cell_rejected(sc->typ, sc->payload) && self.iter.rem() == sc->rest && self.row == sc->row && self.buf@.len() >= 4
                     && self.buf@[0] == sc->payload[0] && self.buf@[1] == sc->payload[1] && self.buf@[2] == sc->payload[2] && self.buf@[3] == sc->payload[3]
                     && cell_val_ok(sc->typ, sc->payload, self.formats@, self.strings@, self.is_1904, verif_out) }),
-                ({ let sc = scan(s0, row0); sc is Cell && (sc->typ == 2 || sc->typ == 5 || sc->typ == 9) && cell_wf(sc->typ, sc->payload, self.strings@.len() as int)
-                    ==> (verif_out is DateTime <==> is_date_fmt(cell_format_spec(self.formats@, sc->payload))) }),
+                scan(s0, row0) is Cell || scan(s0, row0) is Malformed,
             decreases self.iter.rem().len(),
 //@@ before /if is_int \{/
                     proof { if p.len() >= 12 { lemma_rk(p, self.buf@); } }
@@ -756,6 +781,7 @@ let verif_out; loop
 //@@ before /let value = match self\.typ/
             proof {
                 lemma_rec_read(cur);
+                lemma_scan_step(cur, row_h);
                 assert(self.buf@ =~= rec_payload(cur));
                 assert(self.typ as int == rec_typ(cur));
                 assert(self.iter.rem() == rec_rest(cur));
